@@ -12,11 +12,14 @@
        finite-TTL entry of both stores owns a pending expiry handle that is not cancelled (so no entry is ever left
        without its timer, and cancelling another component's timer never hits it), keys at one address are pairwise
        inequivalent (one entry per key), and running _expired(key) leaves nothing equivalent to the key behind;
+       and conversely (Proofs/WorldInv2.v) every pending expiry handle that is not cancelled belongs to the entry
+       CURRENTLY stored under its key: live expiry timers and stored finite-TTL entries correspond one to one, the timer
+       of a refreshed / stopped / removed entry is never live and so can never remove a successor;
    (D) NOT proved: that the timed notification history of Model/Stack.v equals (B) for every scenario (the end-to-end
-       refinement C09_model_refines_spec), and the converse of (C) (no live stale timer).  Checked on every run by
+       refinement C09_model_refines_spec).  Checked on every run by
        comparing complete model traces with the implementation and judging the implementation traces with (B). *)
 From PS Require Import Lib.Base Generated.Consts Model.SdTypes Model.Config Model.Session Model.StackTypes
-  Model.Stack Model.StackIO Spec.TraceSpec Spec.StoreSpec Proofs.StoreSpecProofs Proofs.TimedStoreProofs Proofs.KeyEquiv Proofs.WorldInv.
+  Model.Stack Model.StackIO Spec.TraceSpec Spec.StoreSpec Proofs.StoreSpecProofs Proofs.TimedStoreProofs Proofs.KeyEquiv Proofs.WorldInv Proofs.WorldInv2.
 
 Section A.
   Context {K : Type} (keqb : K -> K -> bool) (keqb_eq : forall a b, keqb a b = true <-> a = b).
@@ -77,7 +80,22 @@ Theorem C09_expiry_leaves_nothing_under_the_key : forall X st a k w, GP X w ->
   forall p, In p (inner a (get_store st (store_expired st a k w))) -> key_eqb k (fst p) = false.
 Proof. exact expired_removes. Qed.
 
+Theorem C09_both_directions_in_every_reachable_state : forall s sc, d_scenario s = Some sc -> GG [] (fst (run_scenario sc)).
+Proof. exact GG_reachable. Qed.
+Theorem C09_both_directions_kept_by_every_loop_step : forall w, GG [] w -> GG [] (lstep1 w).
+Proof. exact GG_lstep1. Qed.
+Theorem C09_live_timer_belongs_to_the_stored_entry : forall w, GG [] w -> forall tid st a k,
+  In (tid, HExpired st a k) (tided w) -> memN tid (cancelled w) = false -> In (k, Some tid) (inner a (get_store st w)).
+Proof. intros w [_ [H _]]. exact H. Qed.
+Theorem C09_expiry_of_a_live_timer_removes_exactly_its_entry : forall w tid st a k r, GG [] w ->
+  ready w = (Some tid, HExpired st a k) :: r -> memN tid (cancelled w) = false -> G2 (store_expired st a k (set_ready r w)).
+Proof. exact G2_expired_popped. Qed.
+
 Print Assumptions C09_timer_invariant.
+Print Assumptions C09_both_directions_in_every_reachable_state.
+Print Assumptions C09_both_directions_kept_by_every_loop_step.
+Print Assumptions C09_live_timer_belongs_to_the_stored_entry.
+Print Assumptions C09_expiry_of_a_live_timer_removes_exactly_its_entry.
 Print Assumptions C09_ownership_kept_by_every_callback.
 Print Assumptions C09_ownership_kept_by_every_iteration.
 Print Assumptions C09_ownership_in_every_reachable_state.
